@@ -186,11 +186,39 @@ func (C16) Gen(r *core.Rng, tier string, emit func(string)) {
 	for i := 0; i < nFill/5; i++ {
 		emit("regbounds " + strconv.Itoa(r.Intn(5)) + " " + fmtMP(randRegion(r, 4)))
 	}
+	// the consumer: real extracts of box regions from sources with leaf directories, run lengths and shared
+	// contents — what ends up in the archive is exactly the region's tile set restricted to the source
+	nEx := 40
+	if tier == "thorough" {
+		nEx = 800
+	}
+	for i := 0; i < nEx*10; i++ {
+		emit(relevantLine(r)) // which entries (and which parts of runs, which leaves) a wanted tile set selects
+	}
+	for i := 0; i < nEx; i++ {
+		ba, ts, ic := randClusteredSource(r)
+		if len(ts.entries) == 0 {
+			continue
+		}
+		w, so := -170+r.Intn(300), -70+r.Intn(120)
+		bbox := fmt.Sprintf("%d,%d,%d,%d", w, so, w+5+r.Intn(90), so+3+r.Intn(40))
+		cmin, cmax := clampZooms(ba.header, -1, int8(1+r.Intn(8)))
+		if cmin > cmax {
+			continue
+		}
+		ivs, err := extractSet(cmin, cmax, bbox)
+		if err != nil {
+			continue
+		}
+		emit(fmt.Sprintf("extract %d %s A %s %s %s # %d %d %s", cmax, fmtIvs(ivs), compName(ic), hexs(ts.data), ba.dirsLine(), -1, cmax, bbox))
+	}
 }
 
 func (C16) RunGo(line string) string {
 	t := strings.Fields(line)
 	switch t[0] {
+	case "extract", "relevant":
+		return C07{}.RunGo(line)
 	case "fill":
 		zoom, _ := strconv.Atoi(t[1])
 		mp, _, ok := parseMP(t[2:])
@@ -305,6 +333,9 @@ func (C16) NonTrivial(line string) bool {
 
 func (C16) Branch(line, goOut string) string {
 	t := strings.Fields(line)
+	if t[0] == "extract" || t[0] == "relevant" {
+		return t[0] + " " + strings.SplitN(goOut, " ", 2)[0]
+	}
 	if t[0] == "fill" {
 		return "fill z" + t[1]
 	}
@@ -360,6 +391,9 @@ func (C16) Oracle(line, goOut string) string {
 	t := strings.Fields(line)
 	if strings.HasPrefix(goOut, "panic") {
 		return goOut
+	}
+	if t[0] == "extract" || t[0] == "relevant" {
+		return C07{}.Oracle(line, goOut)
 	}
 	switch t[0] {
 	case "regbounds":
